@@ -1,11 +1,11 @@
 SPECIFICATION SpecMC
 CONSTANTS
-  MaxTxs = 3
-  MaxGas = 8
-  MaxSize = 9
-  ChainLimit = 3
-  PendingPct = 67
-  MaxHeight = 2
+  MaxTxs = 4
+  MaxGas = 7
+  MaxSize = 6
+  ChainLimit = 4
+  PendingPct = 50
+  MaxHeight = 3
   WalkLen = 20
 VIEW View
 INVARIANT NoTwoSpendSameInput
